@@ -13,7 +13,7 @@ RULE = ('Evaluation = one pair of adjacent reported bases. Groups: for consecuti
         'percentile x 1-3 separation bins x all row orders; engineered tie-at-the-look-back-cut scenes (simultaneous hits of several ceilometers, an outlier in the time step split by the cut). Non-trivial = pair closer than 2*min_sep; distinct = '
         'hash of (rows, parameters, level, pair index).')
 ASSUMPTIONS = ['groups with a re-merge (final ncomp < raw) or with exclusion active are outside the layer clause and are only counted']
-REQUIRED = ['merge', 'chained_merges', 'split_raw_eq_final', 'gt1_sep_bin', 'merge_with_exclusion',
+REQUIRED = ['fam:sepprobe', 'sepprobe_below_threshold_merged', 'merge', 'chained_merges', 'split_raw_eq_final', 'gt1_sep_bin', 'merge_with_exclusion',
             'split_lookback_lt100_coincident_stamps'] + \
            ['split_lookback_lt100_' + o for o in scenes.ORDERS]
 SIZES = {'quick': dict(generic=200, chain=260, bimodal=520, tiecut=160), 'thorough': dict(generic=5000, chain=5000, bimodal=9000, tiecut=3000)}
@@ -33,6 +33,17 @@ def plan(tier, seed):
                           'nce': 1 + (i // 4) % 3, 'lookback': [100, 50, 20, 35.5, 10][(i // 4) % 5],
                           'coincident': (i // 2) % 2 == 0, 'near': i % 2 == 0,
                           'perc': [0, 5, 5, 50, None][(i // 8) % 5]}})
+    nref = 17 * (2 if tier == 'quick' else 24)
+    for i in range(nref):        # real-world reference scenes of the repository (perturbed), random parameters
+        out.append({'fam': 'refdata', 's': seed, 'p': NUM, 'i': 700000 + i,
+                    'k': {'file': i % 17, 'perturb': (i // 17) % 5, 'default_prms': i < 17}})
+    j = 0
+    for ms in (250.0, 100.0, 1000.0, 323.0):             # distance of two flat decks = min_sep - eps
+        for eps in (0, 'ulp', '-ulp', 1e-9, 1e-6, 1e-3, 2e-3, 0.01, 0.5, -1e-3):
+            for base in ((1000.0, 9700.0) if tier == 'quick' else (1000.0, 9700.0, 333.3, 20000.0, 0.0)):
+                out.append({'fam': 'sepprobe', 's': seed, 'p': NUM, 'i': 500000 + j,
+                            'k': {'min_sep': ms, 'eps': eps, 'base': base, 'order': scenes.ORDERS[j % 4], 'perc': [5, 50, 0][j % 3]}})
+                j += 1
     for i in range(z['tiecut']):
         out.append({'fam': 'tiecut', 's': seed, 'p': NUM, 'i': 300000 + i, 'k': {'order': scenes.ORDERS[i % 4]}})
     return out
@@ -67,6 +78,8 @@ def check(desc):
         d = ch.data[['ceilo', 'dt']].drop_duplicates()
         if d['dt'].duplicated().any():
             tags.add('split_lookback_lt100_coincident_stamps')
+    if desc['fam'] == 'sepprobe' and ch.n_groups == 1 and ch.n_slices == 2:
+        tags.add('sepprobe_below_threshold_merged')
     res['counters'].update({'group_pairs': n1, 'layer_pairs': n2, 'gmm_fits_observed': len(run.rec.of('best_gmm'))})
     res['viol'] = [v for v in viol if v['prop'] == 'C06'][:20]
     res['tags'] = sorted(tags) + ['fam:' + desc['fam']]
